@@ -16,11 +16,7 @@ pub fn generate_io(prop: &str, ctx: &mut Ctx) {
 }
 
 fn enc(a: u16, t: u8, d: &[u8], nl: bool) -> Vec<u8> {
-    let r = crate::eval::eval_case(&format!("ENC {} {} {}", a, t, hex_of_bytes(d)));
-    let mut it = r.split(' ');
-    let plain = it.next().unwrap();
-    let with_nl = it.next().unwrap_or("-");
-    bytes_of_hex(if nl { with_nl } else { plain })
+    crate::gen::ref_encode(a, t, d, nl)
 }
 
 fn enc_msg(m: &str) -> Vec<u8> {
